@@ -8,7 +8,8 @@ LEVEL = "fault_enumeration"
 def run(tier, rep, work):
     d = C.stage_specs(work.sub("tla"))
     quick = tier == "quick"
-    storefam.model_check(rep, d, "StoreIdeal", "Crash at any instant (MaxCrash 1), files being written hold nothing or a strict prefix; AckedVisible with expect := durable after the crash, NoReuse, NoPhantom")
+    storefam.model_check(rep, d, "StoreIdeal", "Crash at any instant (MaxCrash 1), files being written hold nothing or a strict prefix; AckedVisible with expect := durable after the crash, NoReuse, NoPhantom",
+                         override=dict(CompactN=100) if quick else None)
     exe = C.build_harness()
     n = 30 if quick else 300
     evs = []
